@@ -151,6 +151,21 @@ def gen_c01(tier, seed, native=True):
              "_novos": k % 4 != 3}
         out.append(line(d))
         idx += 1
+    # a timestamp counter that now and then reads *lower* at the end of a timed section than at its start (cores whose counters are
+    # not synchronised): the sample is worth 0, and nothing about the values' lifecycle changes
+    for k in range(48 if tier == "quick" else 1500):
+        entry = rng.randrange(6)
+        d = base_cfg(rng, idx, entry=entry, small=True)
+        d["s"] = rng.choice([1, 2, 3, 5])
+        d["n"] = rng.choice([2, 3, 4, 6])
+        d["T"] = rng.choice([1, 1, 1, 2, 3])
+        d["regress"] = "%d,%d" % (rng.choice([1, 2, 3]), rng.choice([1, 50, 5000]))
+        d["_novos"] = True
+        d.pop("tsc", None)
+        if rng.random() < 0.15:
+            d["test"] = 1
+        out.append(line(d))
+        idx += 1
     # panic plans: the benchmarked function panics at every call index of the first two rounds; all threads alike
     npanic = 60 if tier == "quick" else 2000
     for _ in range(npanic):
@@ -466,6 +481,40 @@ def gen_c04(tier, seed):
                 if "max" not in d:
                     d["max"] = max(lim, prec_ns) * rng.choice([1, 2, 1000])
         out.append(line(d))
+    # limits that the true elapsed time meets *exactly* at a round boundary, on counters whose tick is not a whole number of
+    # picoseconds: the elapsed time is one interval (last end reading - first start reading) converted once, so a limit of exactly that
+    # many nanoseconds is reached in that round and not one round later
+    for k in range(120 if tier == "quick" else 4000):
+        freq = rng.choice([3 * 10 ** 9, 2_400_000_000, 2_999_999_999, 700_000_000, 1_500_000_000, 3_600_000_000, 999_999_937])
+        delta = rng.choice([1, 1, 2])
+        s_ = rng.choice([1, 1, 2, 3])
+        cbase = rng.choice([0, 1, 2, 7, 48, 98, 333])
+        p_ticks = s_ * cbase + 2 * delta
+        cands = list(range(2, 90))
+        rng.shuffle(cands)
+        pick = None
+        for R in cands:
+            truth = R * p_ticks * 10 ** 12 // freq
+            if truth >= 1000 and truth % 1000 < min(R, 40):
+                pick = (R, truth // 1000)
+                break
+        if pick is None:
+            continue
+        R, lim_ns = pick
+        entry = rng.randrange(6)
+        d = {"id": N + k, "entry": entry, "T": 1, "seed": rng.randrange(1 << 30), "fplog": 0, "freq": freq, "delta": delta, "q": 1, "s": s_,
+             "cbase": cbase, "cstep": 0, "cmod": 1, "cthr": 0, "cnoise": 0, "gcost": 0, "dicost": 0, "docost": 0, "skip": rng.choice([-1, 0]), "_novos": True}
+        i, o = shapes_for(entry, rng)
+        if i:
+            d["ishape"] = i
+        d["oshape"] = o
+        if rng.random() < 0.5:
+            d["max"] = lim_ns
+            d["n"] = R + rng.choice([1, 5, 50])
+        else:
+            d["min"] = lim_ns
+            d["n"] = rng.choice([1, 2, max(1, R - 1)])
+        out.append(line(d))
     return out
 
 
@@ -648,6 +697,22 @@ def gen_c08_panic(tier, seed):
         d["panic"] = "%d,%d,%d" % (phase, thread, index)
         out.append(line(d))
         idx += 1
+    # a call panics on one thread while a peer's call is slow: whatever the unwinding thread does (guards, destructors), it must
+    # not start dropping values while the peer is still between its timestamps. Every entry point x shape pair, so every loop path.
+    shapes = [(e, i, o) for e in (2, 4) for i in ("z", "zd", "s", "sd", "u") for o in ("z", "zd", "s", "sd")]
+    rng.shuffle(shapes)
+    for rep in range(1 if tier == "quick" else 6):
+        for (entry, ishape, oshape) in shapes:
+            T = rng.choice([2, 3])
+            thread = rng.randrange(T)
+            peer = rng.choice([k for k in range(T) if k != thread])
+            s = rng.choice([1, 2, 3])
+            rnd = rng.choice([0, 1])
+            d = {"id": idx, "entry": entry, "T": T, "s": s, "n": T * 3, "cbase": 10, "seed": rng.randrange(1 << 20), "fplog": 0,
+                 "ishape": ishape, "oshape": oshape, "ic": "0", "panic": "2,%d,%d" % (thread, rnd * s + rng.randrange(s)),
+                 "skew": "2,%d,%d" % (peer, rng.choice([300, 600]))}
+            out.append(line(d))
+            idx += 1
     # the same in test mode (one call per thread, nothing reported): a panic still reaches the caller, and nothing hangs
     tcombos = [(T, thread, phase) for T in (2, 3) for thread in list(range(T)) + [255] for phase in (0, 1, 2, 3, 4)]
     rng.shuffle(tcombos)
